@@ -58,9 +58,9 @@ def gas_reactions(rng, fmt, with_h2=True, atoms=True):
 def make_case(rng, i):
     fmt = (FORMATS + ["mixed"])[i % 7]
     model = MODELS[(i // 7) % 5]
-    backend = ["dense", "sparse", "odeint"][(i // 35) % 3] if i >= 35 else rng.choice(["dense", "sparse", "odeint"])
+    backend = ["dense", "sparse", "odeint"][i % 3]        # 7 formats x 5 models x 3 back-ends: coprime cycle lengths cover the grid
     case = {"format": fmt, "model": model, "backend": backend, "thermal": rng.random() < 0.35, "shielding": rng.random() < 0.4,
-            "with_h2": rng.random() < 0.7, "with_atoms": rng.random() < 0.7, "seed": rng.getrandbits(32)}
+            "with_h2": rng.random() < 0.7, "with_atoms": rng.random() < 0.7, "seed": rng.getrandbits(32), "grain_group": rng.random() < 0.3}
     if fmt == "mixed":
         case["formats"] = rng.sample(["kida", "umist", "leeds", "uclchem", "naunet", "krome"], 2)
     return case
@@ -89,7 +89,8 @@ def files_for(case, rng, work):
             reacs = list(gas_reactions(rng, fmt, case["with_h2"]))
             if model and fmt in ("leeds", "uclchem"):
                 pair_model = model
-                gc = c11.make_case(rng, fmt, pair_model if (fmt, pair_model) in c11.PAIRS else ("hh93" if fmt == "leeds" else "rr07"))
+                grp = 1 if (case.get("grain_group") and len(fmts) == 1) else 0
+                gc = c11.make_case(rng, fmt, pair_model if (fmt, pair_model) in c11.PAIRS else ("hh93" if fmt == "leeds" else "rr07"), group=grp)
                 implemented = {"hh93": {"freeze", "thermal", "photon", "cosmicray", "recombine", "ecapture", "surface", "reactive"},
                                "hh93i": {"freeze", "thermal", "photon", "cosmicray", "recombine", "ecapture", "surface", "reactive"},
                                "rr07": {"freeze", "photon", "cosmicray", "h2"}, "rr07x": {"freeze", "photon", "cosmicray", "h2", "thermal"}}[model]
@@ -99,7 +100,7 @@ def files_for(case, rng, work):
                     # between a format's reaction class and a foreign dust model is compiled rather than refused
                     keep = [r for r in keep if r["kind"] in implemented and not (fmt == "uclchem" and r["kind"] == "h2" and model.startswith("hh"))]
                 reacs += keep
-                case.setdefault("user_eb", {}).update({("G" if fmt == "leeds" else "#") + g: v for g, v in gc["user_eb"].items()})
+                case.setdefault("user_eb", {}).update({("G" if fmt == "leeds" else "#") + (str(grp) if grp else "") + g: v for g, v in gc["user_eb"].items()})
             for j, r in enumerate(reacs):
                 r = dict(r, idx=j + 1 + 1000 * k)
                 lines.append(encode.LINE[fmt](r))
@@ -139,6 +140,8 @@ def run_case(case, ctx):
     obs["backend_" + case["backend"]] += 1
     sample = {k: case[k] for k in ("format", "model", "backend", "thermal", "shielding", "with_h2", "with_atoms")}
     sample["formats"] = fmts
+    if case.get("grain_group") and case["model"] and case["format"] in ("leeds", "uclchem"):
+        obs["grain_group_1_projects"] += 1
     Species.reset()
     chemistrydata.user_binding_energy.clear()
     try:
